@@ -102,6 +102,7 @@ type interpreter struct {
 	inInit    int
 	wk        *workerCtx
 	bigUsed   []*bigBuf
+	guards    map[*omap]guard
 	deferGo   bool // template mode: goroutines started by initialisers are started after the snapshot
 	pendingGo []pendingGo
 }
@@ -322,9 +323,9 @@ func visitInstr(fr *frame, instr ssa.Instruction) continuation {
 		fn, args := prepareCall(fr, &instr.Call)
 		i := fr.i
 		if i.deferGo {
-			i.pendingGo = append(i.pendingGo, pendingGo{name: fmt.Sprint(fn), fn: fn, args: args})
+			i.pendingGo = append(i.pendingGo, pendingGo{name: fnName(fn), fn: fn, args: args})
 		} else {
-			i.sch.spawn(fmt.Sprint(fn), func() { call(i, nil, instr.Pos(), fn, args) })
+			i.sch.spawn(fnName(fn), func() { call(i, nil, instr.Pos(), fn, args) })
 		}
 
 	case *ssa.MakeChan:
@@ -772,3 +773,13 @@ func doRecover(caller *frame) value {
 	return iface{}
 }
 
+
+func fnName(fn value) string {
+	switch f := fn.(type) {
+	case *ssa.Function:
+		return f.String()
+	case *closure:
+		return f.Fn.String()
+	}
+	return fmt.Sprint(fn)
+}
